@@ -55,6 +55,11 @@ class _PropDecl(Contract):
     pred = None
     kind = None
 
+    def requires(self, E, st, a):
+        # the body is verified (contracts/exposure.py) for only_exposed=True, the way the daemon must call it: with any other value the gate is off
+        oe = a.get("only_exposed")
+        return [("the property gate is called with only_exposed=True", z3.BoolVal(isinstance(oe, VBool) and z3.is_true(z3.simplify(oe.e))))]
+
     def result(self, E, st, a):
         return VOpaque(fresh("property_result", U))
 
